@@ -31,7 +31,7 @@ RULE = ('random histories of stream openings, END_STREAM in both directions, res
 MINIMA = {'local_opening_judged': 3000, 'local_opening_at_limit_refused': 300, 'local_opening_just_below_limit_accepted': 300,
           'peer_opening_judged': 3000, 'peer_opening_over_limit_judged': 150, 'peer_opening_just_below_limit_accepted': 300,
           'counters_compared': 20000, 'reserved_streams_present_at_judgement': 300,
-          'local_limit_changes_overlapping': 300}
+          'local_limit_changes_overlapping': 300, 'library_initiated_resets': 200, 'garbage_opening_attempts': 300, 'stale_id_openings_judged': 50}
 EXHAUSTIVE = {}
 
 LIMITS = [0, 1, 1, 2, 2, 3, 5, 100]
@@ -79,6 +79,7 @@ def run_case(idx, rng, tier, rep):
     st = {'alive': True, 'peer_limit': UNLIMITED if peer_limit0 is None else peer_limit0,
           'e_limit': 100 if e_limit0 is None else e_limit0, 'e_pending': []}
     poll = rng.random() < 0.5
+    stale = []
 
     def fail(key, what, stop=True):
         rep.violation(key, what, {'role': 'client' if e_client else 'server', 'steps': [str(x) for x in steps[-16:]],
@@ -185,13 +186,64 @@ def run_case(idx, rng, tier, rep):
     for _ in range(nsteps):
         if not st['alive']:
             break
-        ops = ['open', 'open', 'open', 'end_e', 'end_p', 'rst_e', 'rst_p', 'respond', 'peer_mcs', 'e_mcs', 'ack', 'push', 'activate', 'activate']
+        ops = ['open', 'open', 'open', 'end_e', 'end_p', 'rst_e', 'rst_p', 'respond', 'peer_mcs', 'e_mcs', 'ack', 'push', 'activate', 'activate',
+               'wu_overflow']
         op = rng.choice(ops)
+        if op == 'wu_overflow':
+            # the peer overflows a stream's send window: E resets that stream on its own (stream error FLOW_CONTROL_ERROR), which
+            # closes it just like reset_stream would - it must stop counting
+            c = sh.ids(lambda v: v[1] in ('open', 'hc_remote'))
+            if not c or rng.random() < 0.5:
+                continue
+            sid = rng.choice(c)
+            steps.append(('P-window-update-overflow', sid))
+            res = h.send(wire.build_window_update(sid, 2 ** 31 - 1))
+            if res.exc is not None:
+                st['alive'] = False       # a connection error is an acceptable reading of RFC 7540 6.9.1 too: the history ends
+                continue
+            if any(f.type == wire.RST_STREAM and f.stream_id == sid for f in res.frames):
+                sh.st[sid][1] = 'closed'
+                rep.count('library_initiated_resets')
+            compare()
+            continue
         if op == 'open':
             es = rng.random() < 0.3
             if e_client:
                 sid = h.e_next
                 h.e_next += 2
+                if rng.random() < 0.08:
+                    # a mistaken first attempt (a header value that is not a string): whatever it raises, it sent nothing, so it
+                    # opened nothing.  Half of the time the same id is used for the real attempt below, otherwise the id is left
+                    # behind and tried again later, when it is too low (and the limit may be reached).
+                    steps.append(('E-open-garbage', sid))
+                    r0 = t.call('send_headers', sid, REQ + [(b'x-broken', None)])
+                    rep.count('garbage_opening_attempts')
+                    if r0.exc is None:
+                        unexpected(r0, 'send_headers-with-None-value-accepted')
+                        break
+                    if r0.frames:
+                        fail('C10:refused-opening-emitted-frames:garbage', str([f.brief() for f in r0.frames]))
+                        break
+                    if rng.random() < 0.5:
+                        stale.append(sid)
+                        sid = h.e_next
+                        h.e_next += 2
+                elif stale and rng.random() < 0.3 and stale[0] < max([i for i, v in sh.st.items() if v[0] == 'E'] or [0]):
+                    # an id left behind by a failed attempt, now below the highest used id: it can never be opened any more
+                    old = stale.pop(0)
+                    h.e_next -= 2
+                    steps.append(('E-open-stale-id', old))
+                    r0 = t.call('send_headers', old, REQ)
+                    rep.count('stale_id_openings_judged')
+                    if r0.exc is None:
+                        fail('C10:stale-id-opened-without-checks', 'send_headers(%d) succeeded after streams up to %d were opened; %d streams '
+                             'open/half-closed outbound, peer MAX_CONCURRENT_STREAMS %d' %
+                             (old, max(i for i, v in sh.st.items() if v[0] == 'E'), sh.count('E'), st['peer_limit']))
+                        break
+                    if r0.frames:
+                        fail('C10:refused-opening-emitted-frames:stale-id', str([f.brief() for f in r0.frames]))
+                        break
+                    continue
                 steps.append(('E-open', sid, es))
                 r = t.call('send_headers', sid, REQ, end_stream=es)
                 if judge_local_opening(r, 'send_headers-new-stream', sid,
